@@ -293,13 +293,21 @@ func c13MultiStart(cfg verifh.Cfg) (func(op []string) string, func()) {
 	var xsub *Subscriber
 	xkey := VerifKeyName(svcs[0].key, 0)
 	xwatched := false
+	xw := xkey
+	// does x's watch cover its key (etcd delivers an event only to the watches that cover the key)?
+	xcovers := func() bool {
+		e.mu.Lock()
+		defer e.mu.Unlock()
+		return verifCovers(xw, e.prefixed[xw], xkey)
+	}
 	if cfg.Int("exact", 0) == 1 {
 		drain()
 		var err error
 		if xsub, err = NewSubscriber(endpoints, xkey, WithExactMatch()); err != nil {
 			panic(err)
 		}
-		e.AwaitWatch(xkey)
+		// the watch key is what the code under test built for WithExactMatch (the key itself, no prefix)
+		xw = e.AwaitWatchOf(xkey)
 		xwatched = true
 	}
 	// what etcd does with an event: every watch that covers the key gets it
@@ -320,9 +328,9 @@ func c13MultiStart(cfg verifh.Cfg) (func(op []string) string, func()) {
 			if len(mine) > 0 {
 				if !xwatched {
 					lost = true
-				} else {
-					e.Push(xkey, clientv3.WatchResponse{Events: mine})
-					e.Sync(xkey)
+				} else if xcovers() {
+					e.Push(xw, clientv3.WatchResponse{Events: mine})
+					e.Sync(xw)
 				}
 			}
 		}
@@ -387,9 +395,9 @@ func c13MultiStart(cfg verifh.Cfg) (func(op []string) string, func()) {
 			e.Sync(sv.prefix)
 			if xsub != nil && sv == svcs[0] && xwatched {
 				// the exact key lies under this prefix: its watch has lost the same events
-				e.Push(xkey, clientv3.WatchResponse{CompactRevision: 1, Canceled: true})
-				e.AwaitWatch(xkey)
-				e.Sync(xkey)
+				e.Push(xw, clientv3.WatchResponse{CompactRevision: 1, Canceled: true})
+				e.AwaitWatch(xw)
+				e.Sync(xw)
 			}
 		case "connreload":
 			parts := [][]string{nil}
@@ -447,8 +455,8 @@ func c13MultiStart(cfg verifh.Cfg) (func(op []string) string, func()) {
 				}
 			}
 			if xsub != nil {
-				if xwatched = seen[xkey]; xwatched {
-					e.Sync(xkey)
+				if xwatched = seen[xw]; xwatched {
+					e.Sync(xw)
 					ids = append(ids, "x")
 				}
 			}
